@@ -42,6 +42,106 @@ pub mod m3 {
         // x spans the columns (nc), z the rows (nr)
         HfInfo { tok, half: [sc.x * 0.5, sc.z * 0.5], cw: [sc.x / (nc - 1) as f64, sc.z / (nr - 1) as f64], top, haxes: vec![0, 2] }
     }
+    /// height field from a height function on the sample grid: `nx` samples along x (matrix columns), `nz` along z (rows)
+    pub fn hf_grid_tok(nx: usize, nz: usize, h: &dyn Fn(usize, usize) -> f64, sx: f64, sy: f64, sz: f64, st: &[(usize, usize, u8)]) -> String {
+        let mut hs = Vec::new();
+        for j in 0..nx { for i in 0..nz { hs.push(h(j, i)); } }
+        let sts: Vec<String> = st.iter().map(|(jx, iz, b)| format!("{} {} {}", iz, jx, b)).collect();
+        format!("hf {} {} {} {} {}{}{}", nz, nx, hxs(hs.iter()), dx::hv(&dx::Vector::new(sx, sy, sz)), sts.len(), if sts.is_empty() { "" } else { " " }, sts.join(" "))
+    }
+    /// the grid-line coordinates of the height field as the shape itself reports them: one list per horizontal axis (x, z)
+    pub fn hf_lines(h: &px::shape::HeightField) -> Vec<Vec<f64>> {
+        vec![(0..=h.ncols()).map(|j| h.x_at(j)).collect(), (0..=h.nrows()).map(|i| h.z_at(i)).collect()]
+    }
+    pub const HAXES: [usize; 2] = [0, 2];
+    /// the cell `(i, j)` (row, column) a triangle handed to the dispatcher belongs to (exact vertex comparison)
+    pub fn hf_cell_of(h: &px::shape::HeightField, g: &dyn px::shape::Shape) -> Option<(usize, usize)> {
+        let t = g.as_triangle()?;
+        for i in 0..h.nrows() { for j in 0..h.ncols() {
+            let (a, b) = h.triangles_at(i, j);
+            for c in [a, b].into_iter().flatten() { if c.a == t.a && c.b == t.b && c.c == t.c { return Some((i, j)); } }
+        } }
+        None
+    }
+    /// `hfwalk`: the trace of the real 3-D height-field cast (cells handed to the dispatcher, one per pair of triangles)
+    /// args: `ni nj hmin hmax sx sy sz <iso3 pos12> vx vy vz hex hey hez max_toi target`
+    pub fn hfwalk_exec(a: &mut Args) -> String {
+        let ni = a.u(); let nj = a.u(); let hmin = a.f(); let hmax = a.f(); let sc = dx::v(a);
+        let pos12 = dx::iso(a); let vel = dx::v(a); let he = dx::v(a); let max_toi = a.f(); let target = a.f();
+        let mut hs = px::na::DMatrix::from_element(ni + 1, nj + 1, hmin); hs[(0, 0)] = hmax;
+        let hf = px::shape::HeightField::new(hs, sc);
+        let o = ShapeCastOptions { max_time_of_impact: max_toi, target_distance: target, stop_at_penetration: true, compute_impact_geometry_on_penetration: false };
+        let rec = RecDispatcher { log: std::sync::Mutex::new(Vec::new()) };
+        let g2 = Cuboid::new(he);
+        let _ = px::query::details::cast_shapes_heightfield_shape(&rec, &pos12, &vel, &hf, &g2, o);
+        let log = rec.log.lock().unwrap();
+        if log.len() % 2 != 0 { return "odd-number-of-triangles".into(); }
+        let mut cells = Vec::new();
+        for k in 0..log.len() / 2 {
+            match (hf_cell_of(&hf, &*log[2 * k]), hf_cell_of(&hf, &*log[2 * k + 1])) {
+                (Some(c), Some(d)) if c == d => cells.push(c),
+                _ => return "unpaired-triangles".into(),
+            }
+        }
+        // `None` before the walk (the box never meets the field's box) is told apart from an empty trace by the box test itself
+        let bb = { use px::bounding_volume::BoundingVolume; g2.aabb(&pos12).loosened(target) };
+        let hext = bb.half_extents();
+        let msum = px::bounding_volume::Aabb::new(hf.local_aabb().mins - hext, hf.local_aabb().maxs + hext);
+        if { use px::query::RayCast; msum.cast_local_ray(&px::query::Ray::new(bb.center(), vel), max_toi, true).is_none() } { return "none".into(); }
+        let mut s = format!("cells {}", cells.len());
+        for (i, j) in cells { s.push_str(&format!(" {} {}", i, j)); }
+        s
+    }
+    pub fn gen_hfwalk(r: &mut Rng, thorough: bool) -> Vec<(String, String)> {
+        let mut v = Vec::new();
+        for it in 0..(if thorough { 15000 } else { 1500 }) {
+            let lat = it % 4 != 3;
+            let ni = if lat { *r.pick(&[2usize, 4, 8, 3, 5, 6]) } else { 2 + r.below(7) as usize };
+            let nj = if lat { *r.pick(&[2usize, 4, 8, 3, 5, 6]) } else { 2 + r.below(7) as usize };
+            let (wx, wz) = if lat { (*r.pick(&[0.5, 1.0, 2.0]), *r.pick(&[0.5, 1.0, 2.0])) } else { (r.uniform(0.3, 3.0), r.uniform(0.3, 3.0)) };
+            let sc = dx::Vector::new(nj as f64 * wx, *r.pick(&[0.5, 1.0, 2.0]), ni as f64 * wz);
+            let hmin = *r.pick(&[0.0, -0.5, 0.25]); let hmax = hmin + *r.pick(&[0.5, 1.0, 2.0, 0.0]);
+            let he = if lat { dx::Vector::new(wx * *r.pick(&[0.25, 0.5, 1.0, 1.5]), *r.pick(&[0.25, 0.5]), wz * *r.pick(&[0.25, 0.5, 1.0, 1.5])) }
+                     else { dx::Vector::new(wx * r.uniform(0.1, 1.6), r.uniform(0.1, 1.0), wz * r.uniform(0.1, 1.6)) };
+            let target = match r.below(3) { 0 => 0.0, 1 => 0.125, _ => if lat { 0.25 } else { r.uniform(0.01, 0.5) } };
+            let sgn = |r: &mut Rng| if r.bool() { 1.0 } else { -1.0 };
+            let mut vel = dx::Vector::zeros();
+            let (a0, a1) = if r.bool() { (0, 2) } else { (2, 0) };
+            match r.below(8) {
+                0 | 1 => { vel[a0] = sgn(r); }
+                2 => { vel[a0] = sgn(r); vel[a1] = sgn(r); }
+                3 => { vel[a0] = sgn(r); vel[a1] = sgn(r) * 0.5; }
+                4 => { vel[a0] = sgn(r); vel[a1] = sgn(r) / 16.0; }
+                5 => { vel[a0] = sgn(r) * r.uniform(0.2, 1.0); vel[a1] = sgn(r) * r.uniform(0.2, 1.0); }
+                6 => { vel[a0] = sgn(r) * wx; vel[a1] = sgn(r) * wz; if a0 == 2 { vel[a0] = sgn(r) * wz; vel[a1] = sgn(r) * wx; } }   // through the grid points
+                _ => { if r.bool() { vel[a0] = sgn(r) * 0.0; } }                                           // no horizontal motion (signed zeros)
+            }
+            let line = |n: usize, s: f64, l: f64| (-0.5 + (1.0 / (n as f64 + 1.0 - 1.0)) * l) * s;
+            let mut t = dx::Vector::zeros();
+            for (ax, n, s) in [(0usize, nj, sc.x), (2usize, ni, sc.z)] {
+                let l = match r.below(6) { 0 => r.range(-2, -1), 1 => n as i64 + r.range(1, 2), _ => r.range(0, n as i64) } as f64;
+                let frac = match r.below(5) { 0 | 1 | 2 => 0.0, 3 => 0.5, _ => if lat { 0.25 } else { r.unit() } };
+                // outside starts fly inwards most of the time
+                if (l < 0.0 && vel[ax] < 0.0 || l > n as f64 && vel[ax] > 0.0) && r.below(4) != 0 { vel[ax] = -vel[ax]; }
+                t[ax] = line(n, s, l + frac);
+                if frac == 0.0 && t[ax] != 0.0 && r.below(8) == 0 { t[ax] = f64::from_bits((t[ax].to_bits() as i64 + r.range(-2, 2)) as u64); }   // an ulp or two off the line
+            }
+            let (y0, y1) = (hmin * sc.y, hmax * sc.y);
+            let hv = vel.norm();
+            match r.below(6) {
+                0 | 1 | 2 => { t.y = y0 + (y1 - y0) * *r.pick(&[0.0, 0.5, 1.0]) + he.y * *r.pick(&[-0.5, 0.0, 0.5, 1.0]); vel.y = hv * *r.pick(&[0.0, 0.0, -1.0 / 16.0, 1.0 / 32.0]); }
+                3 => { t.y = y1 + he.y + target + *r.pick(&[0.5, 2.0]); vel.y = -(hv.max(0.25)) * *r.pick(&[0.25, 1.0, 1.0 / 16.0]); }   // comes down
+                4 => { t.y = y1 + he.y + target + *r.pick(&[0.0, 0.5]); vel.y = 0.0; }                                             // flies over (touching / above)
+                _ => { t.y = y0 - he.y - target - 1.0; vel.y = hv.max(0.5) * 0.5; }                                                   // comes up from below
+            }
+            vel *= if lat { *r.pick(&[0.5, 1.0, 4.0]) } else { r.logu(0.2, 20.0) };
+            let mut m = match r.below(5) { 0 => dx::gen_iso(r, true, 0.0), 1 => dx::gen_iso(r, false, 0.0), _ => dx::Isometry::identity() };
+            m.translation.vector = t;
+            let max_toi = *r.pick(&[0.5, 2.0, 8.0, 64.0, 1.0e4, f64::MAX]);
+            v.push(("hfwalk".to_string(), format!("{} {} {} {} {} {} {} {} {} {}", ni, nj, hx(hmin), hx(hmax), dx::hv(&sc), dx::hiso(&m), dx::hv(&vel), dx::hv(&he), hx(max_toi), hx(target))));
+        }
+        v
+    }
     /// small triangle mesh: a bumpy 3x3 .. 4x4 grid, or a tetrahedron
     pub fn gen_trimesh_tok(r: &mut Rng, lat: bool) -> (String, Vec<dx::Point<f64>>) {
         let mut pts = Vec::new(); let mut idx: Vec<[usize; 3]> = Vec::new();
@@ -119,6 +219,26 @@ pub mod m2 {
         let tok = format!("hf {} {} {} {}{}{}", n, hxs(hs.iter()), dx::hv(&sc), rem.len(), if rem.is_empty() { "" } else { " " }, rem.join(" "));
         HfInfo { tok, half: [sc.x * 0.5, 0.0], cw: [sc.x / (n - 1) as f64, 1.0], top, haxes: vec![0] }
     }
+    /// height field from a height function on the sample grid (`nz`, `sz` and the second index are unused in 2-D)
+    pub fn hf_grid_tok(nx: usize, _nz: usize, h: &dyn Fn(usize, usize) -> f64, sx: f64, sy: f64, _sz: f64, st: &[(usize, usize, u8)]) -> String {
+        let hs: Vec<f64> = (0..nx).map(|j| h(j, 1)).collect();
+        let mut rem: Vec<usize> = st.iter().map(|x| x.0).collect(); rem.sort(); rem.dedup();
+        let rs: Vec<String> = rem.iter().map(|x| format!("{}", x)).collect();
+        format!("hf {} {} {} {}{}{}", nx, hxs(hs.iter()), dx::hv(&dx::Vector::new(sx, sy)), rs.len(), if rs.is_empty() { "" } else { " " }, rs.join(" "))
+    }
+    /// the grid-line coordinates of the height field (end points of its cells, computed as the cast computes them)
+    pub fn hf_lines(h: &px::shape::HeightField) -> Vec<Vec<f64>> {
+        vec![(0..=h.num_cells()).map(|j| h.cell_width() * (j as f64) + h.start_x()).collect()]
+    }
+    pub const HAXES: [usize; 1] = [0];
+    /// the cell a segment handed to the dispatcher belongs to (exact vertex comparison); reported as `(0, j)`
+    pub fn hf_cell_of(h: &px::shape::HeightField, g: &dyn px::shape::Shape) -> Option<(usize, usize)> {
+        let t = g.as_segment()?;
+        for j in 0..h.num_cells() { if let Some(c) = h.segment_at(j) { if c.a == t.a && c.b == t.b { return Some((0, j)); } } }
+        None
+    }
+    pub fn hfwalk_exec(_a: &mut Args) -> String { "nofn".into() }
+    pub fn gen_hfwalk(_r: &mut Rng, _thorough: bool) -> Vec<(String, String)> { Vec::new() }
     /// small 2-D triangle mesh: a fan / strip of triangles
     pub fn gen_trimesh_tok(r: &mut Rng, lat: bool) -> (String, Vec<dx::Point<f64>>) {
         let n = 3 + r.below(3) as usize; let w = if lat { 2.0 } else { r.uniform(1.0, 2.5) };
